@@ -355,6 +355,8 @@ def run(ctx):
     c14.r2_createtoken(ctx, prog, rule_id='C04.R5')
     r6_pin_bytes(ctx, prog)
     r7_every_settable_pin_logs_in(ctx, prog)
+    from rules import c07
+    c07.r6_reauthenticate(ctx, prog, rule_id='C04.R8')
 
 
 MUTANTS = [
